@@ -628,3 +628,76 @@ def pt_post(ctx, st, result):
 
 
 UNITS.append(Unit("C19", "jsonargparse.typing:path_type.<locals>.PathType.__init__", pt_setup, pt_post, gc_raises, trusted=["super().__init__ is Path.__init__ (its own unit)"]))
+
+
+# ------------------------------------------------------------------------------------------------ parse_value_or_config
+# "relative paths follow the config": whenever a value was read from a file, the caller learns which file (so that everything in it is
+# resolved relative to that file's directory) - whatever the file's content loads to (a mapping, a list of paths, a scalar)
+def pvc_setup(ctx):
+    kind = ["path-to-a-file", "text-not-a-path", "dash", "not-a-string", "nested-arg-with-a-path", "nested-arg-with-text"][ctx.choose(6, "value")]
+    enable_path = ctx.choose(2, "enable_path") == 1
+    content_kind = ["mapping", "list", "scalar-int"][ctx.choose(3, "file-content-loads-to")] if "path" in kind and enable_path else "mapping"
+    simple = z3.Bool("simple_types")
+    ctx.classes.add("NestedArg", ["tuple"])
+    text = z3.String("value") if kind != "dash" else "-"
+    ctx.assume(text != z3.StringVal("-")) if kind != "dash" else None
+    inner = text if "text" in kind or "path" in kind or kind == "dash" else z3.Int("value")
+    value = Rec("NestedArg", attrs={"key": "k", "val": inner}) if kind.startswith("nested-arg") else inner
+    is_path = "path" in kind
+    open_cms = []
+    content = z3.String("file content")
+    loaded_file = {"mapping": {"a": 1}, "list": ["f1.txt"], "scalar-int": z3.Int("loaded")}[content_kind]
+    loaded_text = z3.Int("text loaded as a number")
+    the_path = Rec("Path", attrs={"tag": "the file"}, methods={"get_content": lambda c, s_, a, k: (c.event("read", list(open_cms)), content)[1]})
+
+    def path_ctor(c, a, k):
+        c.event("Path", a[0], k.get("mode"))
+        if not is_path:
+            raise PyRaise(ExcVal("TypeError", origin="Path()"))
+        return the_path
+
+    def load_value(c, a, k):
+        c.event("load_value", a[0], k.get("simple_types"), list(open_cms))
+        return loaded_file if a[0] is content else loaded_text
+
+    calls = {"Path": path_ctor, "get_config_read_mode": lambda c, a, k: "fr", "load_value": load_value, "NestedArg": lambda c, a, k: Rec("NestedArg", attrs=dict(k)),
+             "type": lambda c, a, k: ClassRef("str") if (isinstance(a[0], str) or (is_z3(a[0]) and a[0].sort() == z3.StringSort())) else ClassRef("int") if is_z3(a[0]) else ClassRef(type(a[0]).__name__)}
+    cms = {"cfg_path.relative_path_context": (lambda c, a, k: open_cms.append("relative to the file"), lambda c, t, e: (open_cms.pop(), False)[1])}
+    consts = {"NestedArg": ClassRef("NestedArg"), "str": ClassRef("str")}
+    return Setup(env={"value": value, "enable_path": enable_path, "simple_types": simple}, calls=calls, cms=cms, consts=consts,
+                 data=dict(kind=kind, enable_path=enable_path, content_kind=content_kind, text=text, the_path=the_path, loaded_file=loaded_file, loaded_text=loaded_text, content=content, open_cms=open_cms, simple=simple, inner=inner))
+
+
+def pvc_post(ctx, st, result):
+    d = st.data
+    tag = f"[{d['kind']}{',enable_path' if d['enable_path'] else ''}{',content:' + d['content_kind'] if 'path' in d['kind'] and d['enable_path'] else ''}]"
+    ok_shape = isinstance(result, tuple) and len(result) == 2
+    ctx.oblige("post", "returns-(value, the file it was read from or None)" + tag, ok_shape)
+    if not ok_shape:
+        return
+    val, path = result
+    from_file = "path" in d["kind"] and d["enable_path"]
+    ctx.oblige("post", "the-file-is-reported-exactly-when-the-value-was-read-from-one,whatever-its-content-loads-to" + tag, path is (d["the_path"] if from_file else None))
+    ev = ctx.events
+    if not d["enable_path"] or d["kind"] in ("dash", "not-a-string"):
+        ctx.oblige("post", "no-path-is-tried-when-paths-are-not-enabled,for-'-'-and-for-values-that-are-not-text" + tag, not [e for e in ev if e[0] == "Path"])
+    if from_file:
+        rd = [e for e in ev if e[0] == "read"]
+        lf = [e for e in ev if e[0] == "load_value" and e[1] is d["content"]]
+        ctx.oblige("post", "the-file-is-read-and-its-content-loaded-relative-to-its-own-directory,with-the-caller's-simple_types" + tag,
+                   len(rd) == 1 and rd[0][1] == ["relative to the file"] and len(lf) == 1 and lf[0][3] == ["relative to the file"] and lf[0][2] is d["simple"] and not d["open_cms"])
+        inner = val.attrs["val"] if isinstance(val, Rec) and val.cls == "NestedArg" else val
+        if d["content_kind"] == "mapping":
+            ctx.oblige("post", "a-mapping-read-from-a-file-remembers-the-file-under-__path__" + tag, isinstance(inner, dict) and inner.get("__path__") is d["the_path"] and inner.get("a") == 1)
+        elif d["content_kind"] == "list":
+            ctx.oblige("post", "a-list-read-from-a-file-is-returned-as-loaded" + tag, inner is d["loaded_file"])
+    if d["kind"].startswith("nested-arg"):
+        ctx.oblige("post", "a-dotted-sub-option-keeps-its-key" + tag, isinstance(val, Rec) and val.cls == "NestedArg" and val.attrs.get("key") == "k")
+
+
+def pvc_raises(ctx, st, exc):
+    ctx.oblige("raises", f"no-own-exception[{st.data['kind']}](got {exc.cls}@{exc.origin})", False)
+
+
+UNITS.append(Unit("C19", "jsonargparse._util:parse_value_or_config", pvc_setup, pvc_post, pvc_raises, max_paths=5000,
+                  trusted=["Path(value, mode) raises TypeError unless value names a readable file (Path.__init__: its own unit)", "load_value: its own unit (C05)", "relative_path_context is change_to_path_dir(the path) (its own unit)"]))
